@@ -145,7 +145,7 @@ claim("C14",
       "pr::Expr::write's use of needs_parenthesis and the non-binary arms' option handling are read off the text, not verified; chumsky's pratt() "
       "semantics assumed; regex / HashSet / Formatter / String operations are shims by contract.")
 
-prop("C05", ["select_shape", "star_exclude", "limit_select", "star_cols", "sstring_cols", "lineage_except", "sort_infer", "select_cols", "positional_map", "dialect_flags", "rq_shape", "pipeline_types", "anchor_names", "literal_rows", "json_lits"],
+prop("C05", ["select_shape", "star_exclude", "limit_select", "star_cols", "sstring_cols", "lineage_except", "sort_infer", "select_cols", "positional_map", "dialect_flags", "rq_shape", "pipeline_types", "anchor_names", "literal_rows", "json_lits", "array_item_type"],
      select={"json_lits": lambda n: n.split(".", 1)[1] in ("JC1", "parse_json2.safety"), "anchor_names": lambda n: n.split(".", 1)[1] in ("LN1", "LN1i", "LN2", "EN1", "EN3") or n.endswith(".safety"), "pipeline_types": lambda n: n.split(".", 1)[1] in ("GL1", "GL2", "group_lineage.safety"), "rq_shape": lambda n: n.split(".", 1)[1] in ("AP1", "AP2", "append_single_arm.safety"), "dialect_flags": lambda n: n.rsplit(".", 1)[1] in ("column_exclude", "supports_zero_columns"), "positional_map": lambda n: n.split(".", 1)[1] in ("PM1", "PM3", "PM4", "PM5", "PM8", "activate_mapping.safety", "apply_active_mapping.safety", "select_arm.safety", "compute_arm.safety"), "sort_infer": lambda n: n.split(".", 1)[1] in ("SC1", "SC2", "SC3", "carry_sort_columns.safety", "carry_sort_columns.loop_exit")},
      not_covered="the rest of translate_wildcards (bookkeeping of the current star and of the exclusion sets), split_off_back / anchor_split behind extract_atomic, agreement "
                  "with the resolver's frame for every program, run-time expansion of `*`")
@@ -240,7 +240,7 @@ def _safety(name):
 
 
 _ALL_UNITS = ["take_range", "sort_take", "split_order", "window_frame", "dialect_select", "ident_quote", "ids_names", "toposort", "rq_tables",
-              "select_shape", "span_units", "sql_prec", "prql_prec", "literals", "set_ops", "desugar", "resolve_guards", "lex_strings", "limit_clause", "static_eval", "operator_tpl", "rel_names", "lower_cols", "vec_utils", "group_take", "flatten_sort", "star_exclude", "std_arity", "limit_select", "rq_shape", "star_cols", "func_env", "json_lits", "cte_define", "type_meet", "fmt_strings", "concat_ops", "sstring_query", "sstring_cols", "lineage_except", "sort_infer", "setop_pairs", "setops_reach", "tuple_unpack", "resolver_unwraps", "name_lookup", "frame_decls", "select_cols", "lower_transform", "sort_names", "positional_map", "fmt_interp", "datetime_lit", "lex_numbers", "rq_fold", "dialect_flags", "cid_inline", "module_names", "compose_errors", "lex_end_expr", "fmt_names", "header_args", "literal_rows", "tuple_helpers", "pipeline_types", "lower_ident", "sql_templates", "interp_ident", "table_instance", "fmt_width", "span_frame", "range_sugar", "pl_fold", "lower_expr", "sql_relations", "anchor_names", "ident_kinds", "sql_case", "literal_frame", "relation_literal", "fmt_entry", "parse_files"]
+              "select_shape", "span_units", "sql_prec", "prql_prec", "literals", "set_ops", "desugar", "resolve_guards", "lex_strings", "limit_clause", "static_eval", "operator_tpl", "rel_names", "lower_cols", "vec_utils", "group_take", "flatten_sort", "star_exclude", "std_arity", "limit_select", "rq_shape", "star_cols", "func_env", "json_lits", "cte_define", "type_meet", "fmt_strings", "concat_ops", "sstring_query", "sstring_cols", "lineage_except", "sort_infer", "setop_pairs", "setops_reach", "tuple_unpack", "resolver_unwraps", "name_lookup", "frame_decls", "select_cols", "lower_transform", "sort_names", "positional_map", "fmt_interp", "datetime_lit", "lex_numbers", "rq_fold", "dialect_flags", "cid_inline", "module_names", "compose_errors", "lex_end_expr", "fmt_names", "header_args", "literal_rows", "tuple_helpers", "pipeline_types", "lower_ident", "sql_templates", "interp_ident", "table_instance", "fmt_width", "span_frame", "range_sugar", "pl_fold", "lower_expr", "sql_relations", "anchor_names", "ident_kinds", "sql_case", "literal_frame", "relation_literal", "fmt_entry", "parse_files", "array_item_type"]
 
 
 def _c12_split_order(n):
